@@ -367,6 +367,27 @@ def h_retry_after_refusal(ctx, kind, quoted):
     return [("the value the schema cannot carry is refused", refused)] + attrs_obs(kind + " (second attempt)", sent, inner)
 
 
+def h_two_quotes(ctx):
+    """two replies handled one after the other in one process whose contexts name the SAME quoted stanza id (the same original quoted twice,
+    or ids colliding across chats) but carry different quoted content: each comes back with its own quote"""
+    C, c = conv(ctx)
+    v = V(ctx)
+    A = attr_mods()
+    sid = v.s("stanza", True)
+    q1, q2, t1, t2 = v.s("quoted", True), v.s("quoted", True), v.s("text", True), v.s("text", True)
+
+    def reply(text, quoted):
+        return A["msg"](extended_text=A["ext"](text, None, None, None, None, None, A["ctxinfo"](stanza_id=sid, participant=v.s("p", True), quoted_message=A["msg"](conversation=quoted))))
+    got1 = c.protobytes_to_message(c.message_to_protobytes(reply(t1, q1)))
+    got2 = c.protobytes_to_message(c.message_to_protobytes(reply(t2, q2)))
+
+    def quote_of(g):
+        ci = g.extended_text.context_info if g.extended_text is not None else None
+        return ci.quoted_message.conversation if ci is not None and ci.quoted_message is not None else None
+    return [("the first reply comes back with its own quote", val_eq(quote_of(got1), q1)), ("the second reply comes back with ITS quote, not the first one's", val_eq(quote_of(got2), q2)),
+            ("... and its own text", val_eq(got2.extended_text.text, t2))]
+
+
 def h_two_messages(ctx):
     """two messages composed one after the other in one process: the application adds a mention to the first one's context IN PLACE
     (list append), then composes a second message without mentions: nothing of the first leaks into the second"""
@@ -490,6 +511,7 @@ def cases(tier):
     cs = [dict(name="stub-vs-real-protobuf", fn=h_stub_vs_real)]
     cs += [dict(name="entity[%s,changed after first serialisation]" % k, fn=h_entity_reserialise, args=(k,)) for k in ("text", "extended_text")]
     cs.append(dict(name="two-messages[mention added in place, then a fresh message]", fn=h_two_messages))
+    cs.append(dict(name="two-replies[same quoted stanza id, different quotes]", fn=h_two_quotes))
     for kind in ("image", "video"):
         for quoted in (False, True):
             cs.append(dict(name="retry-after-refusal[%s,%s]" % (kind, "quoted in a reply" if quoted else "top level"), fn=h_retry_after_refusal, args=(kind, quoted)))
